@@ -349,7 +349,10 @@ func VH_C16_CreateTasks() {
 	res, ok := vhExec1(w, &t_aio.Command{Kind: t_aio.CreateTasks, CreateTasks: &t_aio.CreateTasksCommand{PromiseId: pid, CreatedOn: createdOn}})
 	s1 := vx.Snap()
 	if !ok {
-		vx.Assert(false, "no-error")
+		// INSERT..SELECT has no conflict clause: a task that already carries a callback's id (only possible
+		// through the ambiguous derived ids, finding D12) makes the statement fail; nothing may be written then
+		vx.Reach("error")
+		vx.Assert(vx.SameDB(s0, s1), "error-no-effect")
 		return
 	}
 	var n int64
